@@ -82,6 +82,8 @@ def determinism(props=None, n=6, seed=7, verbose=True):
     bad = [k for k in here if here[k] != one.get(k) or here[k] != many.get(k)]
     if bad:
         print(f"HARNESS-ERROR: digests differ across interpreters/hash seeds/pool sizes for {bad[:5]}")
+        for k in bad[:3]:
+            print(f"  {k}: in-process {here[k]} | fresh hashseed=0 pool=1 {one.get(k)} | fresh hashseed=4242 pool=16 {many.get(k)}")
         return 2
     if verbose:
         print(f"determinism ok: {len(here)} runs x (2 in-process + fresh PYTHONHASHSEED=0 pool=1 + fresh PYTHONHASHSEED=4242 pool=16) in {time.time() - t0:.1f}s")
